@@ -292,13 +292,15 @@ def cases_for(rng, n, ctx):
             cases.append({'id': cid, 'ev': 'cholesky', 'a': pm(A, pool), 'res': res})
         elif op == 'det':
             A = obs_matrix(rng, pool, values_matrix(rng, m))
-            if rng.random() < 0.4:
-                # an entry that fluctuates around a central value of exactly zero is not a structural zero
-                a_, b_ = int(rng.integers(0, m)), int(rng.integers(0, m))
-                vals_ = np.array([[float(x.value) if isinstance(x, pe.Obs) else float(x) for x in row] for row in A])
-                vals_[a_, b_] = 0.0
-                if isinstance(A[a_, b_], pe.Obs) and m >= 2 and np.linalg.cond(vals_) < 1e3:        # the matrix stays well-conditioned
-                    A[a_, b_] = A[a_, b_] - A[a_, b_].value
+            if (i // len(ops)) % 2 == 0 and m >= 2:
+                # an entry that fluctuates around a central value of exactly zero is not a structural zero: every second determinant has one
+                # (the first position, in a fixed random order, that leaves the matrix well-conditioned)
+                for a_, b_ in [divmod(int(q_), m) for q_ in rng.permutation(m * m)]:
+                    vals_ = np.array([[float(x.value) if isinstance(x, pe.Obs) else float(x) for x in row] for row in A])
+                    vals_[a_, b_] = 0.0
+                    if isinstance(A[a_, b_], pe.Obs) and np.linalg.cond(vals_) < 1e3:
+                        A[a_, b_] = A[a_, b_] - A[a_, b_].value
+                        break
             r = framed([A], lambda: pe.linalg.det(A))
             res = {'k': 'exc', 't': type(r).__name__} if isinstance(r, Exception) else {'k': 'ok', 's': flat(r, pool)}
             cases.append({'id': cid, 'ev': 'det', 'a': pm(A, pool), 'res': res})
